@@ -46,14 +46,14 @@ type evResult struct {
 }
 
 type evCase struct {
-	Stream  string      `json:"stream"`
-	Hist    int         `json:"history"`
-	Plugins []evPlugin  `json:"plugins"`
-	Sigma   [][2]int    `json:"sigma"` // request id, event
-	Log     [][2]int    `json:"log"`   // plugin id, request id
-	Results []evResult  `json:"results"`
-	G       int         `json:"goroutines"`
-	Foreign []int       `json:"foreign,omitempty"`
+	Stream  string     `json:"stream"`
+	Hist    int        `json:"history"`
+	Plugins []evPlugin `json:"plugins"`
+	Sigma   [][2]int   `json:"sigma"` // request id, event
+	Log     [][2]int   `json:"log"`   // plugin id, request id
+	Results []evResult `json:"results"`
+	G       int        `json:"goroutines"`
+	Foreign []int      `json:"foreign,omitempty"`
 }
 
 func ridOf(pod, ctr string) int {
